@@ -1323,158 +1323,10 @@ type c03Hist struct {
 	// counters
 	invalidAfterValid bool
 	nInvalid          int
-	// Tracking for the known finding C03-stale-pending-policy (see verif_c03_known_test.go).
-	selCache     map[string]*selector.Selector
-	matchSets    map[model.PolicyKey]map[string]bool // policy -> local endpoints it applies to now
-	maybePending map[model.PolicyKey]bool            // may be queued in PolicyResolver.pendingPolicyUpdates
-}
-
-// c03SigStalePending: PolicyResolver flushes a queued policy that lost its last endpoint before
-// the flush.  The harness recognises the precondition from its own model (conservatively) so
-// that, once the finding is registered as known, affected cases are cut short at that flush.
-const c03SigStalePending = "C03-stale-pending-policy"
-
-// c03ProbeStalePending runs the minimal deterministic scenario of the finding on a fresh graph:
-// a policy matches an endpoint and stops matching it between two flushes, is then moved to
-// another tier while it applies to nothing, and finally applies again.  It returns the tiers the
-// endpoint was sent and whether they show the defect (old tier instead of the current one).
-func c03ProbeStalePending() (emitted string, defect bool) {
-	g := c03NewGraph()
-	g.setInSync()
-	order1 := 1.0
-	wepKey := c03WepKeys[0]
-	wep := func(c string) *model.WorkloadEndpoint {
-		return &model.WorkloadEndpoint{
-			State: "active", Name: "cali0",
-			IPv4Nets: []calinet.IPNet{calinet.MustParseNetwork("10.0.0.1/32")},
-			Labels:   uniquelabels.Make(map[string]string{"c": c}),
-		}
-	}
-	polKey := model.PolicyKey{Name: "pa", Kind: v3.KindGlobalNetworkPolicy}
-	pol := func(tier, sel string) *model.Policy {
-		return &model.Policy{Tier: tier, Order: &order1, Selector: sel, Types: []string{"ingress"}}
-	}
-	set := func(k model.Key, v any, ut api.UpdateType) {
-		g.send([]api.Update{{KVPair: model.KVPair{Key: k, Value: v}, UpdateType: ut}})
-	}
-	set(model.TierKey{Name: "default"}, &model.Tier{Order: &order1, DefaultAction: v3.Deny}, api.UpdateTypeKVNew)
-	set(model.TierKey{Name: "t1"}, &model.Tier{Order: &order1, DefaultAction: v3.Deny}, api.UpdateTypeKVNew)
-	set(wepKey, wep("x"), api.UpdateTypeKVNew)
-	g.flush()
-	// The policy matches the endpoint, then stops matching it, with no flush in between.
-	set(polKey, pol("default", "all()"), api.UpdateTypeKVNew)
-	set(polKey, pol("default", "c == 'y'"), api.UpdateTypeKVUpdated)
-	g.flush()
-	// While it applies to nothing it is moved to tier t1.
-	set(polKey, pol("t1", "c == 'y'"), api.UpdateTypeKVUpdated)
-	g.flush()
-	// Now the endpoint gets label c=y: the policy applies again.
-	set(wepKey, wep("y"), api.UpdateTypeKVUpdated)
-	g.flush()
-	em := g.fold.weps[c03WepIDOfKey(wepKey)]
-	if em == nil {
-		return "<endpoint not emitted>", true
-	}
-	emitted = c03TiersString(em.Tiers)
-	return emitted, !(len(em.Tiers) == 1 && em.Tiers[0].Name == "t1")
-}
-
-func (h *c03Hist) parseSel(s string) *selector.Selector {
-	if sel, ok := h.selCache[s]; ok {
-		return sel
-	}
-	sel, err := selector.Parse(s)
-	if err != nil {
-		h.t.Fatalf("HARNESS-GAP: generated policy selector %q does not parse: %v", s, err)
-	}
-	h.selCache[s] = sel
-	return sel
-}
-
-// localMatchSets: for every existing valid policy, the local endpoints whose effective labels
-// its selector matches.
-func (h *c03Hist) localMatchSets() map[model.PolicyKey]map[string]bool {
-	out := map[model.PolicyKey]map[string]bool{}
-	type ep struct {
-		id  string
-		eff map[string]string
-	}
-	var eps []ep
-	for _, k := range c03WepKeys {
-		if e, ok := h.valid.weps[k]; ok && k.Hostname == c03LocalHost {
-			eff, _, _ := c03EffectiveLabels(h.valid, c03OwnLabels(e.Labels), e.ProfileIDs)
-			eps = append(eps, ep{"w:" + c03WepIDOfKey(k), eff})
-		}
-	}
-	for _, k := range c03HepKeys {
-		if e, ok := h.valid.heps[k]; ok && k.Hostname == c03LocalHost {
-			eff, _, _ := c03EffectiveLabels(h.valid, c03OwnLabels(e.Labels), e.ProfileIDs)
-			eps = append(eps, ep{"h:" + k.EndpointID, eff})
-		}
-	}
-	for pk, p := range h.valid.pols {
-		sel := h.parseSel(p.Selector)
-		set := map[string]bool{}
-		for _, e := range eps {
-			if sel.Evaluate(e.eff) {
-				set[e.id] = true
-			}
-		}
-		out[pk] = set
-	}
-	return out
-}
-
-// trackPending is called after every single update was applied to the model.
-func (h *c03Hist) trackPending() {
-	now := h.localMatchSets()
-	for _, pk := range h.world.polKeys {
-		s2, exists := now[pk]
-		if !exists {
-			delete(h.maybePending, pk) // deletion discards the queue entry
-			continue
-		}
-		if len(s2) == 0 {
-			continue
-		}
-		s1 := h.matchSets[pk]
-		disjoint := true
-		for e := range s2 {
-			if s1[e] {
-				disjoint = false
-			}
-		}
-		// Newly applicable, or switched to a disjoint endpoint set within one update (the policy
-		// may be inactive for a moment, depending on map iteration order in the index).
-		if disjoint {
-			h.maybePending[pk] = true
-		}
-	}
-	h.matchSets = now
-}
-
-// stalePendingAtFlush reports (and consumes) the precondition of the known finding: an in-sync
-// flush while a possibly queued, existing policy applies to no local endpoint.
-func (h *c03Hist) stalePendingAtFlush(inSync bool) bool {
-	if !inSync {
-		return false // PolicyResolver.Flush does nothing before in-sync; the queue is kept
-	}
-	hit := false
-	for _, pk := range h.world.polKeys {
-		if h.maybePending[pk] && len(h.matchSets[pk]) == 0 {
-			if _, exists := h.valid.pols[pk]; exists {
-				hit = true
-			}
-		}
-	}
-	h.maybePending = map[model.PolicyKey]bool{}
-	return hit
 }
 
 func c03NewHist(t *rapid.T) *c03Hist {
-	return &c03Hist{t: t, world: c03GenWorld(t), valid: c03NewStore(), raw: map[string]bool{},
-		selCache: map[string]*selector.Selector{}, matchSets: map[model.PolicyKey]map[string]bool{},
-		maybePending: map[model.PolicyKey]bool{}}
+	return &c03Hist{t: t, world: c03GenWorld(t), valid: c03NewStore(), raw: map[string]bool{}}
 }
 
 func (h *c03Hist) nextVersion() int {
@@ -1678,7 +1530,6 @@ func (h *c03Hist) record(s c03Step) (a api.Update, b *api.Update) {
 		h.raw[ks] = true
 		h.valid.apply(s.key, nil)
 	}
-	h.trackPending()
 	h.log = append(h.log, s.desc)
 	h.kinds = append(h.kinds, s.kind)
 	return
